@@ -413,9 +413,10 @@ Fixpoint upd_auth (n : nat) (f : ccmd -> ccmd) (l : list ccmd) : option (list cc
                 end
               else option_map (cons c) (upd_auth n f t)
   end.
-Definition add_blocks (bl : list (Z * Z)) (d : option (list N)) (c : ccmd) : ccmd :=
+(* CmdAuthData.clear() then append(...) for every block; the signature / MAC object is replaced when one is given *)
+Definition set_blocks (bl : list (Z * Z)) (d : option (list N)) (c : ccmd) : ccmd :=
   match c with
-  | KAuth fl key fmt eng cfg b0 d0 => KAuth fl key fmt eng cfg (b0 ++ bl) (match d with Some _ => d | None => d0 end)
+  | KAuth fl key fmt eng cfg _ d0 => KAuth fl key fmt eng cfg bl (match d with Some _ => d | None => d0 end)
   | _ => c
   end.
 
@@ -522,7 +523,7 @@ Definition padded_image (c : hcfg) (q : pre) (csf0 : list N) : list N :=
   firstn (Z.to_nat (h_ivt_off c + c_csf_off c)) (hzeros (h_ivt_off c) ++ place (all_segs c q csf0 (c_app_bin c))).
 
 (* CsfHabSegment.encrypt: (commands, application ciphertext, nonce, mac) *)
-Definition hab_encrypt (c : hcfg) (q : pre) (image : list N) : res (list ccmd * list N * list N * list N) :=
+Definition hab_encrypt (c : hcfg) (cmds : list ccmd) (image : list N) : res (list ccmd * list N * list N * list N) :=
   let nonce := match h_nonce c with Some n => n | None => rng_bytes (aead_nonce_len (hlen image)) end in
   let plain := hslice image (h_ivt_off c + c_app_off c) (h_ivt_off c + c_app_off c + hlen (c_app_bin c)) in
   if negb (Z.leb 7 (hlen nonce) && Z.leb (hlen nonce) 13 && ccm_tag_ok (h_mac_len c)
@@ -531,7 +532,7 @@ Definition hab_encrypt (c : hcfg) (q : pre) (image : list N) : res (list ccmd * 
   let out := ccm_encrypt (aes_enc (h_dek c)) nonce [] (Z.to_nat (h_mac_len c)) plain in
   let ct := firstn (length plain) out in
   let mac := skipn (length plain) out in
-  match upd_auth 2 (add_blocks (enc_blocks c) (Some (macimg (h_ver c) nonce mac))) (q_cmds0 q) with
+  match upd_auth 2 (set_blocks (enc_blocks c) (Some (macimg (h_ver c) nonce mac))) cmds with
   | None => Err E_REJECT
   | Some cmds1 => Ok (cmds1, ct, nonce, mac)
   end.
@@ -545,30 +546,43 @@ Definition mk_built (c : hcfg) (q : pre) (image : list N) sb eb tbs tbs_csf csf_
      b_ivt := c_ivt c; b_bdt_len := c_bdt_len c; b_app_off := c_app_off c; b_csf_off := (if c_auth c then c_csf_off c else 0);
      b_dcd := of_opt (q_dcd_b q); b_xmcd := of_opt (q_xm_b q) |}.
 
-(* HabContainer.update_csf on an authenticated container, then export *)
-Definition hab_finish (c : hcfg) (q : pre) : res built :=
-  bind (csf_export (h_ver c) (q_cmds0 q)) (fun csf0 =>
+(* One HabContainer.update_csf() on an authenticated container whose CSF commands are `cmds` (the only state that survives
+   between calls: the block lists and signature / MAC objects inside the commands; the boot-data length is computed from
+   scratch, the application is reset to the kept plain bytes, the nonce is the same function of the same image), followed by
+   export().  Returns the new command list and what was exported. *)
+Definition hab_update (c : hcfg) (q : pre) (cmds : list ccmd) : res (list ccmd * built) :=
+  bind (csf_export (h_ver c) cmds) (fun csf0 =>
   if negb (segs_ok [] (all_segs c q csf0 (c_app_bin c))) then Err E_REJECT
   else
   let image := padded_image c q csf0 in
-  bind (if c_enc c then res_map (fun e => let '(cmds1, ct, nonce, mac) := e in (cmds1, ct, enc_blocks c, nonce, mac)) (hab_encrypt c q image)
-        else Ok (q_cmds0 q, c_app_bin c, [], [], [])) (fun e =>
+  bind (if c_enc c then res_map (fun e => let '(cmds1, ct, nonce, mac) := e in (cmds1, ct, enc_blocks c, nonce, mac)) (hab_encrypt c cmds image)
+        else Ok (cmds, c_app_bin c, [], [], [])) (fun e =>
   let '(cmds1, app_fin, eb, nonce, mac) := e in
   let sb := signed_blocks c q in
-  match upd_auth 1 (add_blocks sb (Some (sigimg (h_ver c) (h_sig_data c)))) cmds1 with
+  match upd_auth 1 (set_blocks sb (Some (sigimg (h_ver c) (h_sig_data c)))) cmds1 with
   | None => Err E_REJECT
   | Some cmds2 =>
     if existsb (fun b => hlen image <? fst b - h_start c + snd b) sb then Err E_REJECT
     else
-    match upd_auth 0 (add_blocks [] (Some (sigimg (h_ver c) (h_sig_csf c)))) cmds2 with
+    match upd_auth 0 (set_blocks [] (Some (sigimg (h_ver c) (h_sig_csf c)))) cmds2 with
     | None => Err E_REJECT
     | Some cmds3 =>
       bind (csf_export (h_ver c) cmds3) (fun csf_b =>
       if negb (segs_ok [] (all_segs c q csf_b app_fin)) then Err E_REJECT
-      else Ok (mk_built c q (place (all_segs c q csf_b app_fin)) sb eb
-                        (tbs_of c image sb) (csf_base (h_ver c) cmds3) csf_b app_fin nonce mac))
+      else Ok (cmds3, mk_built c q (place (all_segs c q csf_b app_fin)) sb eb
+                               (tbs_of c image sb) (csf_base (h_ver c) cmds3) csf_b app_fin nonce mac))
     end
   end)).
+
+(* load_from_config (one update_csf) + export *)
+Definition hab_finish (c : hcfg) (q : pre) : res built := res_map snd (hab_update c q (q_cmds0 q)).
+
+(* history: k further update_csf() calls on the same object (same signing inputs), each followed by export() *)
+Fixpoint hab_updates (c : hcfg) (q : pre) (k : nat) (cmds : list ccmd) : res (list ccmd * built) :=
+  match k with
+  | O => hab_update c q cmds
+  | S k' => bind (hab_update c q cmds) (fun r => hab_updates c q k' (fst r))
+  end.
 
 Definition hab_build (c : hcfg) : res built :=
   bind (hab_pre c) (fun q =>
@@ -742,6 +756,9 @@ Definition run_case (fn : Z) (args : list value) : value :=
                  (hab_build (dec_cfg l))                                     (* load_from_config + export, parse(export) *)
   | 2, [VBytes d] => vres v_parsed (hab_parse d)                             (* HabContainer.parse *)
   | 3, l => vres v_parsed (bind (hab_build (dec_cfg l)) (fun b => hab_parse (b_image b)))   (* parse(export) *)
+  | 7, VInt k :: l =>                                                          (* k further update_csf() calls, then export *)
+      let c := dec_cfg l in
+      vres (fun r => rle (b_image (snd r))) (bind (hab_pre c) (fun q => hab_updates c q (Z.to_nat k) (q_cmds0 q)))
   | 4, [VBytes t] => VBytes (srk_fuses t)                                     (* SrkTable.export_fuses *)
   | 5, [VBytes d] => vres (fun x => VBytes (dcd_export x)) (dcd_parse d)     (* SegDCD.parse -> export *)
   | 6, [VBytes d] => vres VBytes (bind (xmcd_load d) xmcd_export)            (* SegXMCD.parse -> export *)
